@@ -29,6 +29,8 @@ OPS = {
     "ins_old": {"op": "insert", "k": 1, "v": B2, "auto": False, "tsv": NOW - 20 * E9},
     "ins_new": {"op": "insert", "k": 1, "v": B3, "auto": False, "tsv": NOW + 1},
     "ins_ttl": {"op": "insert", "k": 1, "v": B2, "ttlv": 50, "wttl": True},
+    # a replayed TTL write: newer than the initial generation, its own deadline already in the past
+    "ins_ttl_past": {"op": "insert", "k": 1, "v": B3, "auto": False, "tsv": NOW - 8 * E9, "ttlv": 1, "wttl": True},
     "del_auto": {"op": "delete", "k": 1},
     "del_new": {"op": "delete", "k": 1, "auto": False, "tsv": NOW + 2},
     "insb_auto": {"op": "insert", "k": 1, "v": B2, "bytes": True},          # the Bytes variants have their own update path
